@@ -216,7 +216,7 @@ func RunUnitDiag(cfgc core.Config, scope core.Scope) *core.Result {
 					continue
 				}
 				g := cfgx.New(fd.Body, info)
-				g.Keep = cfgx.KeepUnder(func(c ast.Expr) (bool, bool) {
+				assumeUnit := func(c ast.Expr) (bool, bool) {
 					if caseOfDiag[c] {
 						if tv, ok := info.Types[c]; ok && tv.Value != nil {
 							if v, ok := constant.Int64Val(tv.Value); ok {
@@ -226,8 +226,8 @@ func RunUnitDiag(cfgc core.Config, scope core.Scope) *core.Result {
 						return false, false
 					}
 					return truth(c)
-				})
-				reach := g.Reachable()
+				}
+				reach := g.ReachSome(assumeUnit, cfgx.StableLeaf(info, fd.Body))
 				for _, s := range sites {
 					res.Obligations++
 					res.Count("diagonal_reads", 1)
